@@ -254,7 +254,7 @@ def c13i(F, R):
                     cnd = cnd["e"]
                 if cnd.get("k") == "LetExpr" and any(y is x for y in walk(par["then"], pats=False)):
                     guards |= {short(v) for k_, v in pat_variants(cnd["pat"]) if k_ == "path" and v and "TokenType" in v}
-            if par.get("k") == "Match" and not par.get("src"):
+            if par.get("k") == "Match" and par.get("src") in (None, "Normal"):
                 for a in par["arms"]:
                     if any(y is x for y in walk(a["body"], pats=False)):
                         guards |= {short(v) for k_, v in pat_variants(a["pat"]) if k_ == "path" and v and "TokenType" in v}
